@@ -101,8 +101,14 @@ class World:
         return t
 
     def record_events(self, *types):
+        # the event bus holds listeners weakly: keep a strong reference to the recorder
+        self._recorders = getattr(self, '_recorders', [])
+
+        def rec(e):
+            self.events.append(e)
+        self._recorders.append(rec)
         for ty in types:
-            self.client.events.register(ty, lambda e: self.events.append(e))
+            self.client.events.register(ty, rec)
 
     # -- server side
     def server_send(self, *msgs):
